@@ -361,6 +361,25 @@ def schema_strategy(max_types=5, rich=True):
                             expr=expr, default=None, constraints=[], annotations=[], linkprops=[]))
             # (b) a declared-single computed link whose cardinality follows from
             #     an exclusive constraint (own, object-level or inherited)
+            # make the shape frequent: an exclusive str property on a type that has subtypes
+            # (property-level or object-level constraint), under a name no other type uses
+            with_subs = sorted(q0 for q0 in decl_of0 if any(q0 in anc_of.get(q1, ()) for q1 in decl_of0))
+            if decl_of0 and draw(st.integers(0, 1)) == 0:
+                bq = draw(st.sampled_from(with_subs if (with_subs and draw(st.integers(0, 3)) > 0)
+                                          else sorted(decl_of0)))
+                d0 = decl_of0[bq][1]
+                pn = 'uq_' + d0['name'].lower()
+                if not any(mm.get('name') == pn for mm in d0['members']):
+                    objlevel = draw(st.booleans())
+                    d0['members'].append(dict(
+                        kind='property', name=pn, target='str', card='single', required=False,
+                        expr=None, default=None, constraints=([] if objlevel else ['exclusive']),
+                        annotations=[], linkprops=[]))
+                    if objlevel:
+                        d0['members'].append(dict(kind='constraint', text=f'exclusive on (.{pn})'))
+                    for q1 in decl_of0:
+                        if q1 == bq or bq in anc_of.get(q1, ()):
+                            props_of.setdefault(q1, {})[pn] = 'str'
             excl = []
             for q0, (m0, d0) in sorted(decl_of0.items()):
                 for mm in d0['members']:
